@@ -86,6 +86,8 @@ async def check_tree(ctx, case):
     spec, asg, soll = case["spec"], case["asg"], case["soll"]
     ctx.set_case("tree", case)
     ctx.count("trees")
+    if spec and "line" in spec[0]:
+        ctx.count("trees_with_line_indexes")
     nodes = list(T.walk(spec))
     try:
         expected = RV.ref_validate(spec, asg, soll)
@@ -197,6 +199,8 @@ async def check_sequence(ctx, case):
 def gen_case(ctx, rng, p_invalid=0.0):
     gen = T.TreeGen(rng, parts_factory(rng, p_invalid=p_invalid), max_depth=2 if ctx.quick else rng.choice([2, 3, 4]), max_branch=3 if ctx.quick else rng.choice([3, 4, 5]))
     spec = gen.tree()
+    if rng.random() < 0.4:
+        T.assign_line_indexes(spec, rng)
     return {"spec": spec, "asg": draw_assignment(rng, POOLS.rc), "soll": rng.random() < 0.5, "schedule_seed": rng.randrange(1 << 30)}
 
 
